@@ -38,7 +38,8 @@ theorem placeholders_match (total bs : Nat) (fuel off b : Nat) (fs : List (Nat Ã
       | cons f r =>
         simp only [List.map_cons, List.cons.injEq] at h
         obtain âŸ¨hf, hrâŸ© := h
-        simp only [truePoints, List.map_cons, key, hf, List.cons.injEq, true_and]
+        have hlen : Gen.encPlaceholderLen bs (total - off) = min bs (total - off) := rfl
+        simp only [truePoints, List.map_cons, key, hf, hlen, List.cons.injEq, true_and]
         by_cases hfull : bs â‰¤ total - off
         Â· rw [Nat.min_eq_left hfull]
           exact ih (off + bs) (b + f.2) r hr
